@@ -133,7 +133,8 @@ FAMILIES["C14"] = dict(
 )
 
 FAMILIES["C15"] = dict(
-    g=[G("MC_C15", "MC_C15_quick.cfg", "MC_C15_thorough.cfg")],
+    g=[G("MC_C15", "MC_C15_quick.cfg", "MC_C15_thorough.cfg"), G("MC_C15N", "MC_C15N_quick.cfg", "MC_C15N_thorough.cfg")],
+    trace_by_ev={"Num": "TraceNum"},
     v=[dict(profile="calls", n={"quick": 3000, "thorough": 60000})],
     level_text=("The definitions A1-A4 ($map/$filter/$reduce/$single with the arity clamp, $append/$reverse/$zip/$distinct/$shuffle, $count/$sum/$max/$min/$average, scalar-as-one-member-array, undefined-argument rules) are TLA+ operators written from the statement; "
                 "TLC enumerates all arrays of length 0..3 (4) over the 5-value domain {1,\"1\",true,[1],{\"a\":1}} plus kind-different twins x 14 function arguments (lambdas of arity 0..4, built-ins, a partial, a chain) x 6 reducers x array/aggregate programs, "
